@@ -46,6 +46,10 @@ def evaluate(ops, which):
             dd, nn = econcheck.ledger(sess, ops, mh, d)
             discs += dd
             notes += nn
+        if 'income' in which:
+            dd, nn = econcheck.income_ledger(sess, ops, mh, d)
+            discs += dd
+            notes += nn
         if 'clearing' in which:
             dd, nn = econcheck.clearing(sess, ops, mh, d)
             discs += dd
@@ -132,6 +136,31 @@ def numeric_check(case, which, prop, remap=None):
         if op['op'] == 'AddSupplier' and op.get('eqn'):
             stats['probes']['multi_supplier_market'] = 1
     return viol, stats, sess
+
+
+def valid_program(case):
+    """A shrunk ECON program must stay well formed: it still has a main(), construction raises nothing, every
+    market has a unique residual supplier distinct from its rule-based suppliers, and every sector that is
+    referenced still exists."""
+    ops = case['ops']
+    if not any(o['op'] == 'main' for o in ops):
+        return False
+    d = R.declare(ops)
+    for mh in d.models:
+        for mk in R.goods_markets(d, mh):
+            sl = R.market_suppliers(d, mk)
+            if sl is None:
+                return False
+            if len(set(sh for sh, _ in sl)) != len(sl):
+                return False
+            if not R.demanders(d, mk):
+                return False
+    sess = econ.run_program([o for o in ops if o['op'] != 'main'])
+    if sess.errors:
+        return False
+    if any(out == 'noop' for _i, _n, out in sess.log):
+        return False
+    return True
 
 
 def list_paths(case):
